@@ -294,6 +294,17 @@ def S_C02a():
     return bool(np.abs(back - a).max() > step + 8)  # 16777219 is 3 away from the nearest float32
 
 
+def S_C19b():
+    from nibabel.freesurfer.io import write_annot, read_annot
+    with tempfile.TemporaryDirectory() as d:
+        p = os.path.join(d, 'a.annot')
+        labels = np.array([0, 1, 2, -1, 1])
+        ctab = np.array([[10, 20, 30, 0], [10, 40, 50, 0], [200, 1, 2, 0]], dtype=np.uint8)
+        write_annot(p, labels, ctab, ['a', 'b', 'c'], fill_ctab=True)
+        got, _, _ = read_annot(p)
+    return got.tolist() != labels.tolist()
+
+
 PROBES = {n: f for n, f in list(globals().items()) if n.startswith('S_C') and callable(f)}
 
 if __name__ == '__main__':
